@@ -133,7 +133,14 @@ pub struct Decision {
 /// that ran last if ready, the other ready tasks ascending, follower applications (node
 /// ascending), ticks of waiting intervals within `tick_budget` (only when `ticks_enabled`).
 /// `observe` is called after every step.
+/// Default policy for follower applications. false (lazy): a follower applies a committed
+/// command only when the explorer says so or nothing else can run. true (eager): pending
+/// applications come first in the canonical order, so by default every follower is up to
+/// date and a *delay* is the deviation.
+pub static EAGER_APPLY: std::sync::atomic::AtomicBool = std::sync::atomic::AtomicBool::new(false);
+
 pub fn run(cl: &Cluster, prefix: &[usize], ticks_enabled: bool, tick_budget: usize, max_steps: usize, mut observe: impl FnMut(&Cluster, &Choice)) -> (Vec<Decision>, bool) {
+    let eager = EAGER_APPLY.load(std::sync::atomic::Ordering::SeqCst);
     let mut ds: Vec<Decision> = vec![];
     let mut last: Option<usize> = None;
     let mut ticks_fired: HashMap<usize, usize> = HashMap::new();
@@ -147,8 +154,18 @@ pub fn run(cl: &Cluster, prefix: &[usize], ticks_enabled: bool, tick_budget: usi
             }
         }
         let mut options: Vec<Choice> = ready.iter().map(|t| Choice::Task(*t)).collect();
-        for nid in cl.raft.lagging() {
-            options.push(Choice::Apply(nid));
+        let lagging = cl.raft.lagging();
+        let mut last_ready = last_ready;
+        if eager && !lagging.is_empty() {
+            // applications first; anything else is a deviation (a delay)
+            let mut o: Vec<Choice> = lagging.iter().map(|n| Choice::Apply(*n)).collect();
+            o.extend(options);
+            options = o;
+            last_ready = true;
+        } else {
+            for nid in lagging {
+                options.push(Choice::Apply(nid));
+            }
         }
         if ticks_enabled {
             for (iv, _t) in sim::waiting_intervals() {
